@@ -82,8 +82,8 @@ func (tr *Tr) coerce(v Val, to *T, at ast.Node) Val {
 	case to.K == KIface && from.K == KAtom:
 		return Val{term: "DA " + paren(v.term), typ: to}
 	case to.K == KIface && from.Name != "":
-		if im := implFor(from.Name); im != nil {
-			return Val{term: fmt.Sprintf(im.termPat, paren(v.term)), typ: to}
+		if im := implIn(to, from.Name); im != nil {
+			return Val{term: fillPat(im.termPat, paren(v.term)), typ: to}
 		}
 	case to.K == KAtom && from.Name != "":
 		if im := implFor(from.Name); im != nil && im.atomPat != "" {
@@ -95,6 +95,12 @@ func (tr *Tr) coerce(v Val, to *T, at ast.Node) Val {
 			if !sameType(from.Elem, to.Elem) {
 				break
 			}
+			if from.K != KPtr && isAtomList(from) != isAtomList(to) {
+				break // a Set holds atoms, another []Term holds terms
+			}
+		}
+		if from.K == KWrap || from.K == KMap {
+			break
 		}
 		nv := v
 		nv.typ = to
@@ -137,6 +143,20 @@ func (tr *Tr) expr(e ast.Expr, env *Env, k econt) string {
 			if c, ok := tr.p.constEval(e, -1); ok {
 				return k(env, Val{term: "?", typ: tUntypedInt, cst: c})
 			}
+		}
+		if tr.pkgName(e.X, env) == "" {
+			// x.f on a struct with a single field f: the representation of x
+			return tr.expr(e.X, env, func(e1 *Env, x Val) string {
+				x = tr.use(x, e.X)
+				t := x.typ
+				if t.K == KPtr && t.Elem.K == KWrap {
+					t = t.Elem
+				}
+				if t.K != KWrap || t.Field != e.Sel.Name {
+					tr.fail(e, "selector %s on a value of type %v", e.Sel.Name, x.typ)
+				}
+				return k(e1, Val{term: x.term, typ: t.Elem})
+			})
 		}
 		tr.fail(e, "selector %s", exprStr(e))
 	case *ast.StarExpr:
@@ -244,9 +264,13 @@ func (tr *Tr) expr(e ast.Expr, env *Env, k econt) string {
 				return tr.panicOut(e1, "site_assert")
 			}
 			pt := tr.payloadType(tid.Name, e)
+			payload := Val{term: binder, typ: pt}
+			if !strings.Contains(pat, binder) {
+				payload.term = "tt" // a struct{} implementor carries nothing
+			}
 			return tr.letScrut(x, func(sc string) string {
 				return fmt.Sprintf("match %s with\n| %s =>\n%s\n| _ => %s\nend", sc, pat,
-					ind(ind(k(e1, Val{term: binder, typ: pt}))), tr.panicOut(e1, "site_assert"))
+					ind(ind(k(e1, payload))), tr.panicOut(e1, "site_assert"))
 			})
 		})
 	case *ast.CompositeLit:
@@ -303,6 +327,13 @@ func exprStr(e ast.Expr) string {
 var errorClasses = map[string]string{
 	"ErrInt64Overflow": "EOverflow",
 	"ErrExprDivByZero": "EDivZero",
+}
+
+// errors constructed by fmt.Errorf that the model distinguishes from EIllTyped, by
+// their exact format string (a changed message falls back to EIllTyped, and the
+// equality with the model is no longer provable: the table is then to be revisited)
+var errorfClasses = map[string]string{
+	"datalog: expressions: unknown variable %d": "EUnknownVar", // Model/DEval.v step_D, Model/Expr.v
 }
 
 func (tr *Tr) ident(e *ast.Ident, env *Env) Val {
@@ -390,6 +421,18 @@ func (tr *Tr) pkgVar(e *ast.Ident, vs *ast.ValueSpec) Val {
 }
 
 func (tr *Tr) unary(e *ast.UnaryExpr, env *Env, k econt) string {
+	if e.Op == token.AND {
+		// &T{...}: a pointer to a fresh allocation; the value is the pointee, the
+		// variable it initialises becomes the only name of that pointee (bindAll)
+		lit, ok := unparen(e.X).(*ast.CompositeLit)
+		if !ok {
+			tr.fail(e, "address of %T (only &T{...} initialising a local, and return &local)", e.X)
+		}
+		return tr.expr(lit, env, func(e1 *Env, v Val) string {
+			v = tr.use(v, lit)
+			return k(e1, Val{term: v.term, typ: &T{K: KPtr, Elem: v.typ}, fresh: true})
+		})
+	}
 	return tr.expr(e.X, env, func(e1 *Env, v Val) string {
 		v = tr.use(v, e.X)
 		switch e.Op {
@@ -914,6 +957,9 @@ func (tr *Tr) libCall(pk, name string, call *ast.CallExpr, env *Env, k econt) st
 					}
 				}
 				if n == 0 {
+					if cls, ok := errorfClasses[format]; ok {
+						return k(e, Val{term: "Some " + cls, typ: tError})
+					}
 					return k(e, Val{term: "Some EIllTyped", typ: tError})
 				}
 				if n > 1 {
@@ -1126,6 +1172,14 @@ func (tr *Tr) callMulti(call *ast.CallExpr, env *Env, k func(*Env, []Val) string
 			if rt.K == KPtr && rt.Elem.Name != "" {
 				rt = rt.Elem
 			}
+			// a method promoted from the embedded field of a single-field struct
+			for rt.K == KWrap && rt.Embedded {
+				if _, declared := tr.p.funcs[rt.Name+"."+f.Sel.Name]; declared {
+					break
+				}
+				rt = rt.Elem
+				recv = Val{term: recv.term, typ: rt}
+			}
 			switch {
 			case rt.K == KBigInt:
 				switch f.Sel.Name {
@@ -1259,8 +1313,13 @@ func (tr *Tr) emitCall(call *ast.CallExpr, fi *FuncInfo, recv *Val, argExprs []a
 				if id != nil {
 					b = env.scope[id.Name]
 				}
-				if b == nil || !b.ptrParam || !tr.isMutated(b) {
+				if b == nil || !(b.ptrParam && tr.isMutated(b) || b.ptrLocal) {
 					tr.fail(nodes[i], "%s writes through this argument, which is not a pointer parameter of the caller", fi.key)
+				}
+				for _, ob := range mutB {
+					if ob == b {
+						tr.fail(nodes[i], "%s writes through two arguments that are the same pointer", fi.key)
+					}
 				}
 				mutB = append(mutB, b)
 			}
@@ -1342,11 +1401,15 @@ func (tr *Tr) emitCall(call *ast.CallExpr, fi *FuncInfo, recv *Val, argExprs []a
 }
 
 // dispatcher builds (once) the function that selects the method of the dynamic
-// type of a Term (or of an element of a Set).
+// type of a value of a represented interface (Term, an element of a Set, Op,
+// UnaryOpFunc, BinaryOpFunc).  An implementation with a struct{} receiver has no
+// receiver parameter; an implementation that does not write through a pointer
+// parameter that another one writes through returns that pointee unchanged.
 func (tr *Tr) dispatcher(rt *T, method string, at ast.Node) *FuncInfo {
 	atom := rt.K == KAtom
-	key := "Term." + method
-	coq := "go_Term_" + method
+	iname := rt.Name
+	key := iname + "." + method
+	coq := "go_" + iname + "_" + method
 	if atom {
 		key = "TermAtom." + method
 		coq = "go_TermAtom_" + method
@@ -1356,19 +1419,28 @@ func (tr *Tr) dispatcher(rt *T, method string, at ast.Node) *FuncInfo {
 	}
 	var impls []*FuncInfo
 	var pats []string
-	for _, im := range termImpls {
+	var offs []int
+	for _, im := range implsOf(rt) {
 		if atom && im.atomPat == "" {
 			continue
 		}
 		k := im.goType + "." + method
 		if _, ok := tr.p.funcs[k]; !ok {
-			tr.fail(at, "method %s through the interface Term: %s has no such method", method, im.goType)
+			tr.fail(at, "method %s through the interface %s: %s has no such method", method, iname, im.goType)
 		}
 		fi := tr.translate(k, at)
-		if fi.decl.Recv == nil || len(fi.params) != countParams(fi.decl)+1 {
+		if fi.decl.Recv == nil {
+			tr.fail(at, "method %s through the interface %s: %s is not a method", method, iname, k)
+		}
+		off := len(fi.params) - countParams(fi.decl)
+		if off != 0 && off != 1 {
+			tr.fail(at, "internal: parameters of %s", k)
+		}
+		if off == 0 && rt.Name == "Term" {
 			tr.fail(at, "method %s through the interface Term: %s has no value receiver parameter", method, k)
 		}
 		impls = append(impls, fi)
+		offs = append(offs, off)
 		if atom {
 			pats = append(pats, im.atomPat)
 		} else {
@@ -1378,36 +1450,48 @@ func (tr *Tr) dispatcher(rt *T, method string, at ast.Node) *FuncInfo {
 	first := impls[0]
 	d := &FuncInfo{key: key, coqName: coq, dispatch: true, results: first.results, rk: first.rk, payload: first.payload}
 	d.params = append(d.params, &Param{goName: "recv", typ: rt})
-	d.params = append(d.params, first.params[1:]...)
+	d.params = append(d.params, first.params[offs[0]:]...)
 	d.mutates = make([]bool, len(d.params))
-	for _, fi := range impls {
-		if len(fi.params) != len(first.params) || fi.rk != first.rk || fi.payload != first.payload {
-			tr.fail(at, "method %s through the interface Term: signatures differ", method)
+	for j, fi := range impls {
+		if len(fi.params)-offs[j] != len(d.params)-1 || fi.rk != first.rk || fi.payload != first.payload {
+			tr.fail(at, "method %s through the interface %s: signatures differ", method, iname)
 		}
-		for i := 1; i < len(fi.params); i++ {
-			if !sameType(fi.params[i].typ, first.params[i].typ) {
-				tr.fail(at, "method %s through the interface Term: signatures differ", method)
+		for i := offs[j]; i < len(fi.params); i++ {
+			if !sameType(fi.params[i].typ, d.params[i-offs[j]+1].typ) {
+				tr.fail(at, "method %s through the interface %s: signatures differ", method, iname)
 			}
 			if fi.mutates[i] {
-				d.mutates[i] = true
+				d.mutates[i-offs[j]+1] = true
 			}
 		}
-		if fi.mutates[0] {
-			tr.fail(at, "method %s through the interface Term writes through its receiver", method)
+		if offs[j] == 1 && fi.mutates[0] {
+			tr.fail(at, "method %s through the interface %s writes through its receiver", method, iname)
 		}
 		if fi.usesRx {
 			d.usesRx = true
 		}
 	}
-	for _, fi := range impls {
-		for i := range fi.mutates {
-			if fi.mutates[i] != d.mutates[i] {
-				tr.fail(at, "method %s through the interface Term: implementations differ in the parameters they write through", method)
+	// an implementation writes through all the pointer parameters the dispatcher threads, or through none
+	wraps := make([]bool, len(impls))
+	for j, fi := range impls {
+		all, none := true, true
+		for i := 1; i < len(d.params); i++ {
+			if !d.mutates[i] {
+				continue
+			}
+			if fi.mutates[i-1+offs[j]] {
+				none = false
+			} else {
+				all = false
 			}
 		}
+		if !all && !none {
+			tr.fail(at, "method %s through the interface %s: implementations differ in the parameters they write through", method, iname)
+		}
+		wraps[j] = !all
 	}
 	tr.finishSig(d)
-	var sig, argNames []string
+	var sig, argNames, mutNames []string
 	if d.usesRx {
 		sig = append(sig, "(rx : bytes -> bytes -> option bool)")
 	}
@@ -1416,6 +1500,9 @@ func (tr *Tr) dispatcher(rt *T, method string, at ast.Node) *FuncInfo {
 		n := fmt.Sprintf("a%d", i+1)
 		argNames = append(argNames, n)
 		sig = append(sig, fmt.Sprintf("(%s : %s)", n, coqType(p.typ)))
+		if d.mutates[i+1] {
+			mutNames = append(mutNames, n)
+		}
 	}
 	var arms []string
 	for i, fi := range impls {
@@ -1423,15 +1510,22 @@ func (tr *Tr) dispatcher(rt *T, method string, at ast.Node) *FuncInfo {
 		if fi.usesRx {
 			app += " rx"
 		}
-		app += " x"
+		if offs[i] == 1 {
+			app += " x"
+		}
 		if len(argNames) > 0 {
 			app += " " + strings.Join(argNames, " ")
 		}
-		arms = append(arms, fmt.Sprintf("| %s => %s", fmt.Sprintf(pats[i], "x"), app))
+		if wraps[i] {
+			app = "(" + strings.Join(mutNames, ", ") + ", " + app + ")"
+		}
+		arms = append(arms, fmt.Sprintf("| %s => %s", fillPat(pats[i], "x"), app))
 	}
 	what := "the dynamic type of a Term"
 	if atom {
 		what = "the dynamic type of an element of a Set"
+	} else if iname != "Term" {
+		what = "the dynamic type of a value of the interface " + iname
 	}
 	text := fmt.Sprintf("(* method %s selected by %s *)\nDefinition %s %s : %s :=\n  match recv with\n  %s\n  end.\n#[global] Hint Unfold %s : go_fn.\n",
 		method, what, coq, strings.Join(sig, " "), d.fullRet, strings.Join(arms, "\n  "), coq)
